@@ -81,8 +81,16 @@ def _build(hv, case):
     members = obj.hvsrs if case["kind"] == "azimuthal" else ([obj] if case["kind"] == "traditional" else [])
     for t, m, pm in zip(members, case["masks"], case["pmasks"]):
         has = ~np.isnan(t._main_peak_frq)
-        t.valid_window_boolean_mask = np.array(m, dtype=bool)
-        t.valid_peak_boolean_mask = np.array(pm, dtype=bool) & has
+        if case["kind"] == "azimuthal":
+            # the library keeps both masks equal on azimuthal members (a window without a peak is rejected)
+            both = np.array(m, dtype=bool) & has
+            if not both.any():
+                both = has.copy()
+            t.valid_window_boolean_mask = both.copy()
+            t.valid_peak_boolean_mask = both.copy()
+        else:
+            t.valid_window_boolean_mask = np.array(m, dtype=bool)
+            t.valid_peak_boolean_mask = np.array(pm, dtype=bool) & has
     return obj, members, f
 
 
